@@ -9,7 +9,7 @@ From BVA Require Import Proofs.Counts Proofs.Edit.
    (properties C11 and C12). *)
 
 Definition kind_ok (k : kind) : Prop :=
-  match k with KF w n => std_width w /\ 0 < n | _ => True end.
+  match k with KF w n => std_width w /\ 0 <= n | _ => True end.
 
 (* ------------------------------------------------------------------ general helpers *)
 
@@ -417,7 +417,7 @@ Proof.
   apply N.lt_le_trans with (2 ^ t); [assumption|apply pow2_le; assumption].
 Qed.
 
-Lemma f_from_uint_spec w n t x :
+Lemma f_from_uint_spec_pos w n t x :
   0 < w -> 0 < n -> x < 2 ^ t ->
   (w * n < N.size x -> f_from_uint w n t x = Err ECap) /\
   (N.size x <= w * n ->
@@ -459,6 +459,40 @@ Proof.
       * split; [|auto]. unfold canon_wv. cbn [wd wl]. rewrite HR, Hd.
         split; [assumption|]. split; [lia|].
         destruct (N.min_spec t (w * n)) as [[_ ->]|[_ ->]]; assumption.
+Qed.
+
+Lemma size_0_iff x : N.size x <= 0 <-> x = 0.
+Proof. destruct x as [|p]; split; intros H; try reflexivity; try discriminate; unfold N.size in *; lia. Qed.
+
+Lemma canon_wv_empty w : canon_wv w (mkwv [] 0).
+Proof.
+  unfold canon_wv. cbn [wd wl]. split; [constructor|]. rewrite raw_nil. change (lenw []) with 0.
+  change (2 ^ 0) with 1. lia.
+Qed.
+
+Lemma f_from_uint_spec w n t x :
+  0 < w -> x < 2 ^ t ->
+  (w * n < N.size x -> f_from_uint w n t x = Err ECap) /\
+  (N.size x <= w * n ->
+   exists r, f_from_uint w n t x = Ok r /\ canon_wv w r /\ lenw (wd r) = n /\
+             wl r = N.min t (w * n) /\ raw w (wd r) = x).
+Proof.
+  intros Hw Hx. destruct (N.eq_dec n 0) as [->|Hn].
+  - assert (f_from_uint w 0 t x = if x =? 0 then Ok (mkwv [] 0) else Err ECap) as E.
+    { unfold f_from_uint. rewrite N.mul_0_r, N.min_0_r.
+      change (0 <? 0) with false. change (zerosw 0) with (@nil N). change (mapi _ []) with (@nil N).
+      cbv iota.
+      destruct x as [|p].
+      - change (0 =? 0) with true. change (0 <? N.size 0) with false. cbv iota.
+        destruct (t <=? w); reflexivity.
+      - change (N.pos p =? 0) with false. change (0 <? N.size (N.pos p)) with true. cbv iota.
+        destruct (t <=? w); reflexivity. }
+    rewrite E, N.mul_0_r, N.min_0_r. split.
+    + intros H. destruct (N.eqb_spec x 0) as [->|Hne]; [|reflexivity]. unfold N.size in H. lia.
+    + intros H. apply size_0_iff in H. subst x. change (0 =? 0) with true. cbv iota.
+      eexists. split; [reflexivity|]. split; [apply canon_wv_empty|]. cbn [wd wl].
+      rewrite raw_nil. auto.
+  - apply f_from_uint_spec_pos; [assumption|lia|assumption].
 Qed.
 
 (* a fixed type without storage words accepts exactly the integer 0, as the empty vector *)
@@ -512,7 +546,7 @@ Lemma bvp_from_uint t x :
   exists r, f_from_uint 64 2 t x = Ok r /\ canon_wv 64 r /\ lenw (wd r) = 2 /\ wl r = t /\ raw 64 (wd r) = x.
 Proof.
   intros Ht Hx. pose proof (std_width_le128 t Ht) as Ht128. pose proof (size_le_of_lt x t Hx) as Hsz.
-  destruct (f_from_uint_spec 64 2 t x eq_refl eq_refl Hx) as [_ HO].
+  destruct (f_from_uint_spec 64 2 t x eq_refl Hx) as [_ HO].
   destruct HO as (r & E & Hc & Hn & Hl & Hr); [lia|].
   exists r. rewrite N.min_l in Hl by lia. auto.
 Qed.
@@ -527,7 +561,7 @@ Proof.
   intros Hk Ht Hx.
   destruct k as [w n| |]; cbn [kind_ok kind_fixed kind_cap k_from_uint] in *.
   - destruct Hk as [Hw Hn].
-    destruct (f_from_uint_spec w n t x (std_width_pos w Hw) Hn Hx) as [HE HO].
+    destruct (f_from_uint_spec w n t x (std_width_pos w Hw) Hx) as [HE HO].
     split.
     + intros _ H. rewrite HE by assumption. reflexivity.
     + intros [H|H]; [discriminate|].
